@@ -13,10 +13,11 @@ Chunk == 500
 
 VARIABLES l, bad
 
-Holds(r) == C16(r.v, r.o)
+IsFirst(r) == "layer" \in DOMAIN r /\ r.layer = "first"
+Holds(r) == IF IsFirst(r) THEN C16_FirstStarted(r.v, r.o) ELSE C16(r.v, r.o)
 
 ReportViol(k) == LET r == Rec[k] IN
-  PrintT(<<"VIOL", ToJson([k |-> k, sid |-> r.sid, clauses |-> C16_Clauses(r.v, r.o)])>>)
+  PrintT(<<"VIOL", ToJson([k |-> k, sid |-> r.sid, clauses |-> IF IsFirst(r) THEN {"C16_FirstStarted"} ELSE C16_Clauses(r.v, r.o)])>>)
 
 Init == l = 0 /\ bad = 0
 Next == /\ l < Len(Rec)
